@@ -359,6 +359,10 @@ def mk_call(f, args, kw):
         # De Morgan: any(not b ...) is not all(b ...)
         if f in (G("any"), G("all")) and is_t(a, "fam") and is_t(a[2], "un") and a[2][1] == "not":
             return ("un", "not", ("call", G("all") if f == G("any") else G("any"), (("fam", a[1], a[2][2]),), ()))
+        # tree_leaves(tree_map(f, T)) is [f(leaf) for leaf in tree_leaves(T)] (one tree, f returning leaves)
+        if is_t(f, "global") and f[1] in ("jax.tree_util.tree_leaves", "jax.tree.leaves") and is_t(a, "treemap") and len(a[2]) == 1:
+            lv = ("call", G("jax.tree_util.tree_leaves"), (a[2][0],), ())
+            return ("fam", lv, subst(a[1], ("leaf", a[2][0]), ("elem", lv)))
         # tuple(x) / list(x) of something that already is a tuple / list / slice
         if f in (G("tuple"), G("list")):
             if is_t(a, "tuple") or is_t(a, "list"):
